@@ -21,7 +21,8 @@ type GCall struct {
 	UID     int  `json:"uid"`
 	Natives int  `json:"natives"` // bit 0 InvokableRun, bit 1 StreamableRun
 	Fails   bool `json:"fails,omitempty"`
-	Intr    int  `json:"intr,omitempty"` // the first Intr executions return compose.InterruptAndRerun
+	Intr    int  `json:"intr,omitempty"`    // the first Intr executions return compose.InterruptAndRerun
+	Unknown bool `json:"unknown,omitempty"` // no such tool in the ToolsNode: the call is answered by its UnknownToolsHandler
 	DelayUs int  `json:"delay,omitempty"`
 	Chunks  int  `json:"chunks,omitempty"`
 }
@@ -96,6 +97,44 @@ type bothTool struct {
 
 func (t bothTool) Info(ctx context.Context) (*schema.ToolInfo, error) { return t.invTool.Info(ctx) }
 
+// nat: the paradigms the unit of a tool call implements (the unknown-tool handler is a plain function: invoke only)
+func (c *GCall) nat() int {
+	if c.Unknown {
+		return 1
+	}
+	return c.Natives & 3
+}
+
+// placeholderTool is what a ToolsNode is configured with when the case passes the real tool list as a call option.
+type placeholderTool struct{}
+
+func (placeholderTool) Info(context.Context) (*schema.ToolInfo, error) {
+	return &schema.ToolInfo{Name: "placeholder", Desc: "replaced by the call option"}, nil
+}
+func (placeholderTool) InvokableRun(context.Context, string, ...tool.Option) (string, error) {
+	return "", fmt.Errorf("the placeholder tool was called")
+}
+
+// toolListOpts: the call options that hand the ToolsNodes configured with a placeholder their real tool list
+func (rr *runRec) toolListOpts(stages [][]*GNode, path []string) []compose.Option {
+	var out []compose.Option
+	for _, st := range stages {
+		for _, n := range st {
+			p := append(append([]string{}, path...), nodeKey(n.Key))
+			switch {
+			case n.Kind == "tools" && n.ToolList:
+				rr.mu.Lock()
+				tl := rr.toolLists[n.UID]
+				rr.mu.Unlock()
+				out = append(out, compose.WithToolsNodeOption(compose.WithToolList(tl...)).DesignateNodeWithPath(compose.NewNodePath(p...)))
+			case n.Kind == "sub":
+				out = append(out, rr.toolListOpts(n.Stages, p)...)
+			}
+		}
+	}
+	return out
+}
+
 func mkTool(c *GCall, rr *runRec) tool.BaseTool {
 	base := &callTool{c: c, rr: rr}
 	switch c.Natives & 3 {
@@ -140,10 +179,32 @@ func (rr *runRec) buildToolsSub(n *GNode) (*compose.Graph[vmap, vmap], error) {
 		return m, nil
 	})
 	var tools []tool.BaseTool
+	unknown := map[string]*GCall{}
 	for _, c := range tn.Calls {
+		if c.Unknown {
+			unknown[unitName(c.UID)] = c
+			continue
+		}
 		tools = append(tools, mkTool(c, rr))
 	}
-	node, err := compose.NewToolNode(context.Background(), &compose.ToolsNodeConfig{Tools: tools})
+	cfg := &compose.ToolsNodeConfig{Tools: tools}
+	if tn.ToolList && len(tools) > 0 {
+		// the node is configured with another tool; the real list arrives as a call option of every run
+		rr.mu.Lock()
+		rr.toolLists[tn.UID] = tools
+		rr.mu.Unlock()
+		cfg.Tools = []tool.BaseTool{placeholderTool{}}
+	}
+	if len(unknown) > 0 {
+		cfg.UnknownToolsHandler = func(_ context.Context, name, input string) (string, error) {
+			c := unknown[name]
+			if c == nil {
+				return "", fmt.Errorf("harness: no call for the unknown tool %q", name)
+			}
+			return (&callTool{c: c, rr: rr}).run(input)
+		}
+	}
+	node, err := compose.NewToolNode(context.Background(), cfg)
 	if err != nil {
 		return nil, err
 	}
